@@ -17,7 +17,7 @@ from pyvc.interp import Interp
 from pyvc.values import Sym, Obj, PyRaise, Native, unbox, z3int, z3real, ReturnEx, BreakEx, ContinueEx
 from pyvc import natives as N
 from pyvc import aio as A
-from contracts.common import mk, cls, func, new, run, Recorder, Stub, collect, std_result
+from contracts.common import mk, cls, func, new, run, enum, Recorder, Stub, collect, std_result
 
 RL = 'network.rate_limiter'
 NET = 'network.network'
@@ -281,6 +281,11 @@ def prove_network(src_root, ex: Explorer):
         for c in (c1, c2):
             c.attrs['upload_rate_limiter'] = old
             c.attrs['download_rate_limiter'] = old
+            c.attrs['connection_type'] = 'F'
+            c.attrs['state'] = enum(it, 'network.connection', 'ConnectionState', 'CONNECTED')
+        # one file connection is transferring, the other one still negotiates ticket / offset: both are given the new limiter
+        c1.attrs['connection_state'] = enum(it, 'network.connection', 'PeerConnectionState', 'TRANSFERRING')
+        c2.attrs['connection_state'] = enum(it, 'network.connection', 'PeerConnectionState', 'NEGOTIATING_TRANSFER')
         net.attrs.update(peer_connections=[c1, c2], _upload_rate_limiter=old, _download_rate_limiter=old)
         k = z3.Int('k')
         ctx.assume(k >= 1)
@@ -400,7 +405,12 @@ def prove_connection_use(src_root, ex: Explorer):
         grant = z3.Int('grant')
         ctx.assume(grant >= 1)
         asked = []
-        c.attrs['upload_rate_limiter'] = Stub('limiter', take_tokens=Recorder('take_tokens', ret=Sym(grant, 'int'), is_async=True))
+        L = z3.Int('limit_bps')
+        ctx.assume(L >= 1024)
+        charged = []
+        c.attrs['upload_rate_limiter'] = Stub('limiter', take_tokens=Recorder('take_tokens', ret=Sym(grant, 'int'), is_async=True),
+                                              limit_bps=Sym(L, 'int'), bucket=Sym(z3.Int('bucket'), 'int'),
+                                              add_tokens=Recorder('add_tokens', fn=lambda it2, a, k: charged.append(a[0])))
 
         def read(it2, a, k):
             asked.append(a[0])
@@ -408,7 +418,9 @@ def prove_connection_use(src_root, ex: Explorer):
             return Rope()
         fh = Stub('fh', read=Recorder('read', fn=read, is_async=True))
         run(it, it.getattr(c, 'send_file'), fh)
-        ctx.prove('C20.send_file.reads-at-most-grant', z3.BoolVal(len(asked) == 1) if len(asked) != 1 else z3int(asked[0]) <= grant)
+        ctx.prove('C20.send_file.reads-at-most-grant', z3.BoolVal(len(asked) == 1) if len(asked) != 1 else z3int(asked[0]) <= grant,
+                  'a chunk larger than the number of granted tokens is read from the file (sent on credit)')
+        ctx.prove('C20.send_file.no-credit', not charged, 'the connection adjusts the bucket itself (add_tokens): only take_tokens() moves tokens out of the bucket')
     ex.run(send, 'send_file-grant')
 
     def current(ctx: Ctx):
